@@ -96,7 +96,14 @@ def replace_gate(gate, macros):
             raise JaqalError(
                 f"Cannot expand {gate.name}: wrong argument count: {len(gate.parameters)} != {len(macro.parameters)}"
             )
-        visitor = GateReplacer(gate.parameters, macros)
+        # Bind the arguments to the macro's parameters by position: a call
+        # built before the macro was known (e.g. in a block evaluated on its
+        # own) is keyed by placeholder names, not by the macro's names.
+        arguments = {
+            param.name: value
+            for param, value in zip(macro.parameters, gate.parameters.values())
+        }
+        visitor = GateReplacer(arguments, macros)
         return visitor.visit(macro)
     else:
         return gate
